@@ -7,6 +7,8 @@ spec sources, known findings, evidence files, VIOLATION lines.
 """
 import hashlib, json, os, re, shutil, subprocess, sys, time
 
+sys.setrecursionlimit(200000)
+
 VERIF = os.path.dirname(os.path.dirname(os.path.abspath(__file__)))
 REPO = os.environ.get("VERIF_REPO", "/repo")
 SPEC = os.path.join(VERIF, "spec")
